@@ -151,5 +151,11 @@ claim("C12", "model_checking",
       "profile mass flux, momentum flux incl. radiation pressure and energy flux incl. the radiative flux are constant; (c) the upstream end is the user's ambient state and both ends are in "
       "radiative equilibrium.", MEAS, TECH, "DESIGN.md 9 C12")
 
-for p in [ "C07", "C08", "C09", "C10", "C11", "C12", "C13", "C14", "C15", "C16", "C18", "C19", "C20"]:
-    pending(p, "check under construction in this round (design in DESIGN.md section 9); not claimed until it runs soundly on the unchanged tree")
+claim("C19", "model_checking",
+      "2-D steady Riemann campaign (supersonic bottom / top lattices: pressure, density, Mach number, flow angle, gamma incl. unequal ones, enumerated by TLC): a sweep in polar angle through the "
+      "returned fields finds the constant states, oblique shocks, the slip line and fans from the fields alone (wave rays by m-ary search); the sequence must be a word of the region grammar; "
+      "TLC checks per shock the normal mass / momentum flux, total enthalpy and tangential velocity with the LOCATED ray, at the slip line equal pressure and direction and that the line lies along "
+      "the flow, per fan state the isentrope, total enthalpy and turning = nu(M2) - nu(M1) with the true Prandtl-Meyer function, and on every state speed^2 = u^2 + v^2, M = speed / c.",
+      MEAS, TECH, "DESIGN.md 9 C19")
+
+NOT_APPLICABLE = {}
